@@ -7,14 +7,17 @@ OPS = 'src/operations.rs'
 
 module('indexed_coproduct')
 
-raw(r'''
-/// the values of a segmented array only need a length
-pub trait HasLen {
-    spec fn spec_len(&self) -> nat;
+# the trait HasLen of /repo (its only generic parameter is the array kind); `len` is its required method,
+# `is_empty` its default method (extracted)
+group('pub trait HasLen', preamble='''    spec fn spec_len(&self) -> nat;
     fn len(&self) -> (r: usize)
         ensures r == self.spec_len();
-}
+''')
+fn('src/indexed_coproduct/arrow.rs', 'is_empty', kind='trait', trait='HasLen', status='P', props=['C08'], no_pub=True,
+   ensures=[('C08.haslen-is_empty', 'r <==> self.spec_len() == 0')])
+endgroup()
 
+raw(r'''
 /// the size invariant of a segmented array: the sizes add up to the number of values, and the
 /// size map's codomain is that sum plus one
 pub open spec fn seg_wf(sources: FiniteFunction, vlen: nat) -> bool {
@@ -75,6 +78,10 @@ fn(IC, 'len', trait='HasLen', self_ty='FiniteFunction', status='P', props=['C08'
 endgroup()
 group('impl<T: Clone> HasLen for SemifiniteFunction<T>', preamble='    open spec fn spec_len(&self) -> nat { self@.len() }\n')
 fn(IC, 'len', trait='HasLen', self_ty='SemifiniteFunction', status='P', props=['C08'])
+endgroup()
+
+group('impl<F> HasLen for IndexedCoproduct<F>', preamble='    open spec fn spec_len(&self) -> nat { self.sources.table@.len() }\n')
+fn(IC, 'len', trait='HasLen', self_ty='IndexedCoproduct', status='P', props=['C08'])
 endgroup()
 
 group('impl<F: Clone + HasLen> Clone for IndexedCoproduct<F>')
